@@ -357,6 +357,12 @@ func engineTotality(ctx *Ctx) {
 				ctx.R.Path("sized-over-4096", 1)
 			}
 		}
+		if g := ctx.G(k); g%64 == 11 {
+			// a well-formed block list of a few hundred KiB whose later entries refer back to values named in the first ones
+			// (anchors and aliases): what an entry means depends on text far above it
+			f = c10AnchoredFile(vlib.NewRand(ctx.Seed, g, "totality-anchored"))
+			ctx.R.Path("large-files-with-anchors-and-aliases", 1)
+		}
 		tFile := time.Now()
 		p := filepath.Join(ctx.Scratch, fmt.Sprintf("f%d.yml", k))
 		os.WriteFile(p, f.Content, 0o644)
@@ -443,12 +449,29 @@ func engineTotality(ctx *Ctx) {
 		mdb := database.NewMonitoredDatabase(db)
 		sr := recovery.NewSearchRecovery()
 		nQf := nQ
-		if f.Class == "wellformed-sized" {
+		if f.Class == "wellformed-sized" || f.Class == "wellformed-large-with-aliases" {
 			nQf = 1
 		}
-		for qi := 0; qi < nQf; qi++ {
-			q := c10Query(r, words)
-			o := c10Options(r)
+		// two more requests per file from a stream of their own: plain words of the file under a small limit, with typo tolerance,
+		// and with boosts on the request's own words that damp instead of raise (0, tiny, below one, negative) - the scores an entry
+		// point compares with its "good enough" thresholds then fall on the other side
+		r3 := vlib.NewRand(ctx.Seed, ctx.G(k), "totality-damped")
+		for qi := 0; qi < nQf+2; qi++ {
+			var q string
+			var o database.SearchOptions
+			if qi < nQf {
+				q = c10Query(r, words)
+				o = c10Options(r)
+			} else {
+				q = vlib.GenQuery(r3, words, 1+r3.Intn(2), 0)
+				o = database.SearchOptions{Limit: 1 + r3.Intn(3), UseFuzzy: true, UseNLP: r3.Intn(2) == 0, AllPlatforms: true, ContextBoosts: map[string]float64{}}
+				for _, w := range strings.Fields(q) {
+					f := []float64{0, 1e-9, 0.001, 0.3, 0.5, -2}[r3.Intn(6)]
+					o.ContextBoosts[w] = f
+					o.ContextBoosts[strings.ToLower(w)] = f
+				}
+				ctx.R.Path("requests-with-damping-boosts-on-their-own-words", 1)
+			}
 			qcs := map[string]interface{}{"class": f.Class, "file_hex": cs["file_hex"], "query_hex": fmt.Sprintf("%x", q), "opts": fmt.Sprintf("%+v", o)}
 			calls := []struct {
 				name string
@@ -494,6 +517,38 @@ func engineTotality(ctx *Ctx) {
 
 // processor counts a user's machine may have (the first is this machine's)
 var c10Procs = []int{runtime.NumCPU(), 1, 2, 3, 4, 6, 8, 12, 24, 32, 48, 64, 96, 128, 192, 256}
+
+// c10AnchoredFile: 2600-4200 entries in block layout (300-700 KiB). The first two entries name their platform and keyword
+// lists (&pl, &kw); entries further down - the last one among them - use the aliases.
+func c10AnchoredFile(r *rand.Rand) c10File {
+	n := 2600 + r.Intn(1600)
+	pl := [][]string{{"linux", "macos"}, {"windows"}, {"linux", "macos", "windows"}}[r.Intn(3)]
+	kw := []string{"alpha" + fmt.Sprint(r.Intn(100)), "shared", "list"}
+	step := 40 + r.Intn(60)
+	var b strings.Builder
+	var exp []vlib.Cmd
+	for i := 0; i < n; i++ {
+		c := vlib.Cmd{Command: fmt.Sprintf("tool%d --flag%d value", i, r.Intn(1000)), Description: fmt.Sprintf("entry number %d of a long list, padded so that the file is a few hundred KiB in all", i),
+			Keywords: []string{fmt.Sprintf("kw%d", i), "padded"}, Platform: []string{"linux"}}
+		fmt.Fprintf(&b, "- command: %s\n  description: %s\n", c10YQ(c.Command), c10YQ(c.Description))
+		switch {
+		case i == 0:
+			c.Platform = pl
+			fmt.Fprintf(&b, "  keywords: %s\n  platform: &pl %s\n", c10YList(c.Keywords), c10YList(pl))
+		case i == 1:
+			c.Keywords = kw
+			fmt.Fprintf(&b, "  keywords: &kw %s\n  platform: %s\n", c10YList(kw), c10YList(c.Platform))
+		case i%step == 7 || i == n-1:
+			c.Platform = pl
+			c.Keywords = kw
+			fmt.Fprintf(&b, "  keywords: *kw\n  platform: *pl\n")
+		default:
+			fmt.Fprintf(&b, "  keywords: %s\n  platform: %s\n", c10YList(c.Keywords), c10YList(c.Platform))
+		}
+		exp = append(exp, c)
+	}
+	return c10File{Class: "wellformed-large-with-aliases", Content: []byte(b.String()), Expected: exp}
+}
 
 // c10SizedFile: a plain well-formed list whose length is near a power of two (just above it in most cases) or anywhere up to 7000.
 func c10SizedFile(r *rand.Rand, k int) c10File {
